@@ -7,6 +7,7 @@ arithmetic overflow or division by zero in the successor, fuel never exhausted.
 -/
 import Matreex.Lemmas.Transpose
 import Matreex.Lemmas.Matrix
+import Matreex.Lemmas.BridgeTranspose
 
 namespace Matreex.C05
 open Matreex
@@ -328,5 +329,16 @@ example : ex23.Coh ∧ ex23.data.size ≤ usizeMax := ⟨⟨rfl⟩, by simp [ex2
 example : (ex23.transpose false).map (·.data.toList) = .ok [1, 4, 2, 5, 3, 6] := by rfl
 example : (runOps ex23 [.transpose, .switchOrder, .setOrderWR .rowMajor, .transpose]).map
     (fun m => (m.order, m.shape, m.data.toList)) = .ok (.rowMajor, ⟨3, 2⟩, [1, 4, 2, 5, 3, 6]) := by rfl
+
+/-- the `transpose` the theorems of this file are about IS the source's function: the definition
+regenerated from `src/lib.rs` on every run (`Gen/TransposeGen.lean`, translator T5 — the zero-sized
+early return, where the old and the new shape are read, the `visited` vector and the variable that
+indexes it, the break condition, the successor expression, the two offsets handed to `ptr::swap`,
+`current = next`, the loop bound: all taken from the Rust statements) returns the same header and
+the same buffer, with the same faults, as the model's `Matrix.transpose` — for every matrix, with
+no hypothesis -/
+theorem transpose_is_the_source (zst : Bool) (m : Matrix α) :
+    Gen.Matrix.transpose zst m.hdr m.data = (m.transpose zst).map fun r => (r.hdr, r.data) :=
+  BridgeTranspose.transpose_bridge zst m
 
 end Matreex.C05
